@@ -115,7 +115,23 @@ pub fn worker_main(prop: &'static dyn Prop, excl: Vec<String>) -> i32 {
                     break;
                 };
                 let render = j.get("render").and_then(|x| x.as_bool()).unwrap_or(false);
-                let out = guarded(|| state.run(&case, render));
+                let render_only = j.get("render_only").and_then(|x| x.as_bool()).unwrap_or(false);
+                let reduce_sig = j.get("reduce_sig").and_then(|x| x.as_str()).map(|s| s.to_string());
+                let out = if let Some(sig) = reduce_sig {
+                    guarded(|| {
+                        let mut o = Outcome::pass();
+                        o.render = Some(state.reduce(&case, &sig));
+                        o
+                    })
+                } else if render_only {
+                    guarded(|| {
+                        let mut o = Outcome::pass();
+                        o.render = Some(state.render_only(&case));
+                        o
+                    })
+                } else {
+                    guarded(|| state.run(&case, render))
+                };
                 let s = serde_json::to_string(&out.to_json()).unwrap();
                 if writeln!(proto, "{s}").is_err() {
                     break;
@@ -126,4 +142,50 @@ pub fn worker_main(prop: &'static dyn Prop, excl: Vec<String>) -> i32 {
         .unwrap();
     let _ = handle.join();
     0
+}
+
+
+/// Run `f` in a forked child so that a crash only kills the child.  Returns the
+/// failure signature: "" for pass/discard, the outcome's signature for a failure,
+/// "crash:<SIGNAL>" if the child died by a signal.
+pub fn forked_sig(f: impl FnOnce() -> Outcome) -> String {
+    use std::io::Read;
+    let mut fds = [0i32; 2];
+    if unsafe { libc::pipe(fds.as_mut_ptr()) } != 0 {
+        return String::new();
+    }
+    let pid = unsafe { libc::fork() };
+    if pid < 0 {
+        return String::new();
+    }
+    if pid == 0 {
+        // child
+        unsafe { libc::close(fds[0]) };
+        let o = guarded(f);
+        let sig = if o.verdict == Verdict::Fail { o.sig } else { String::new() };
+        let bytes = sig.as_bytes();
+        unsafe {
+            libc::write(fds[1], bytes.as_ptr() as *const libc::c_void, bytes.len());
+            libc::_exit(0);
+        }
+    }
+    unsafe { libc::close(fds[1]) };
+    let mut file = unsafe { std::fs::File::from_raw_fd(fds[0]) };
+    let mut buf = Vec::new();
+    let _ = file.read_to_end(&mut buf);
+    let mut status: i32 = 0;
+    unsafe { libc::waitpid(pid, &mut status, 0) };
+    if libc::WIFSIGNALED(status) {
+        let s = libc::WTERMSIG(status);
+        let name = match s {
+            4 => "SIGILL".to_string(),
+            6 => "SIGABRT".to_string(),
+            7 => "SIGBUS".to_string(),
+            8 => "SIGFPE".to_string(),
+            11 => "SIGSEGV".to_string(),
+            n => format!("SIG{n}"),
+        };
+        return format!("crash:{name}");
+    }
+    String::from_utf8_lossy(&buf).to_string()
 }
